@@ -689,6 +689,9 @@ pub enum Policy {
     DropThird,
     /// like LowFirst, observing only after every second answer (command-level hosts)
     SilentPairs,
+    /// like LowFirst (with a large items-per-stream bound the oldest subscription is fed again and
+    /// again), observing only after every 45th answer: dozens of items wait in one subscription
+    Flood,
 }
 
 impl Policy {
@@ -707,6 +710,7 @@ impl Policy {
             Policy::Alternate => if depth % 2 == 0 { low } else { high },
             Policy::DropThird => if depth % 3 == 2 { drops.first().copied().or(low) } else { low },
             Policy::SilentPairs => if depth % 2 == 1 { resolves(false).first().copied().or(low) } else { low },
+            Policy::Flood => if depth % 45 != 44 { resolves(false).first().copied().or(low) } else { low },
         };
         // nothing left to answer: release what is still held (ends subscriptions), oldest first
         choice.or(drops.first().copied()).into_iter().collect()
